@@ -85,6 +85,7 @@ pub fn golden(a: &Args) -> i32 {
             states: false,
             max_readers: 1,
             reader_churn: 0,
+            ladder_n: 0,
             hashes: false,
             p_rollback: 6,
         };
